@@ -447,9 +447,55 @@ fn time_aware(case: &Value) {
     println!("{}", serde_json::to_string(&out).unwrap());
 }
 
+/// Pragmatic solution writer replay: the problem is read by the real pragmatic reader from generated JSON, the tour is
+/// built in the given visiting order, scheduled by the real `update_route_schedule` and written by `write_pragmatic`.
+fn writer_tour(case: &Value) {
+    use std::io::BufWriter;
+    use vrp_core::models::Solution;
+    use vrp_pragmatic::format::problem::PragmaticProblem;
+    use vrp_pragmatic::format::solution::{write_pragmatic, PragmaticOutputType};
+    let problem_json = case["problem"].to_string();
+    let matrix_json = case["matrix"].to_string();
+    let problem = Arc::new((problem_json, vec![matrix_json]).read_pragmatic().unwrap_or_else(|e| panic!("cannot read problem: {e}")));
+    let actor = problem.fleet.actors[0].clone();
+    let mut rc = RouteContext::new(actor);
+    for id in case["order"].as_array().unwrap() {
+        let id = id.as_str().unwrap();
+        let job = problem.jobs.all().iter().find(|j| j.dimens().get_job_id().is_some_and(|jid| jid == id)).unwrap().clone();
+        let single = job.to_single().clone();
+        let place = &single.places[0];
+        let time = match &place.times[0] {
+            TimeSpan::Window(tw) => tw.clone(),
+            _ => TimeWindow::max(),
+        };
+        rc.route_mut().tour.insert_last(Activity {
+            place: APlace { idx: 0, location: place.location.unwrap(), duration: place.duration, time },
+            schedule: Schedule::new(0., 0.),
+            job: Some(single),
+            commute: None,
+        });
+    }
+    update_route_schedule(&mut rc, problem.activity.as_ref(), problem.transport.as_ref());
+    let solution = Solution {
+        cost: Default::default(),
+        registry: Registry::new(&problem.fleet, Arc::new(DefaultRandom::default())),
+        routes: vec![rc.route().deep_copy()],
+        unassigned: vec![],
+        telemetry: None,
+    };
+    let mut buffer = BufWriter::new(Vec::new());
+    write_pragmatic(problem.as_ref(), &solution, PragmaticOutputType::OnlyPragmatic, &mut buffer).unwrap();
+    let text = String::from_utf8(buffer.into_inner().unwrap()).unwrap();
+    let written: Value = serde_json::from_str(&text).unwrap();
+    println!("{}", serde_json::to_string(&json!({"solution": written})).unwrap());
+}
+
 fn main() {
     let path = std::env::args().nth(1).expect("usage: verif-replay <case.json>");
     let case: Value = serde_json::from_str(&std::fs::read_to_string(path).unwrap()).unwrap();
+    if case["kind"] == "writer_tour" {
+        return writer_tour(&case);
+    }
     if case["kind"] == "goal_order" {
         return goal_order(&case);
     }
